@@ -6,6 +6,7 @@ import (
 	"math/rand/v2"
 	"sort"
 	"sync"
+	"sync/atomic"
 
 	"golang.org/x/mod/sumdb/tlog"
 
@@ -527,7 +528,7 @@ func (l *lockedTiles) SaveTiles(t []tlog.Tile, d [][]byte) {
 // return the true hashes, and only true tiles may be saved (package-level scratch state in the tile code
 // would show here, and nowhere in the single-goroutine families).
 func c10Concurrent(c *mon.Ctx, ref *refmerkle.Log, maxN int) {
-	rounds := c.Share(c.Scale(40, 400))
+	rounds := c.Share(c.Scale(96, 800))
 	for k := 0; k < rounds; k++ {
 		id := fmt.Sprintf("conc:%d", k)
 		if !c.Want(id) {
@@ -571,13 +572,34 @@ func c10Concurrent(c *mon.Ctx, ref *refmerkle.Log, maxN int) {
 		}
 		var wg sync.WaitGroup
 		bad := make([]string, G)
+		// the q'th reads of all goroutines are released together (a goroutine that stops early still counts)
+		type gate struct {
+			n  atomic.Int32
+			ch chan struct{}
+		}
+		gates := make([]gate, 6)
+		for q := range gates {
+			gates[q].ch = make(chan struct{})
+		}
+		arrive := func(q int, wait bool) {
+			if gates[q].n.Add(1) == G {
+				close(gates[q].ch)
+			}
+			if wait {
+				<-gates[q].ch
+			}
+		}
 		for g := 0; g < G; g++ {
 			wg.Add(1)
 			go func(g int) {
 				defer wg.Done()
+				next := 0
 				defer func() {
 					if e := recover(); e != nil {
 						bad[g] = fmt.Sprintf("panic: %v", e)
+					}
+					for ; next < len(gates); next++ {
+						arrive(next, false)
 					}
 				}()
 				srv := &tileSrv{h: jobs[g].h, n: n, ref: ref}
@@ -586,6 +608,8 @@ func c10Concurrent(c *mon.Ctx, ref *refmerkle.Log, maxN int) {
 					hr, srv = sharedHR, &tileSrv{}
 				}
 				for _, set := range jobs[g].idx {
+					next++
+					arrive(next-1, true)
 					got, err := hr.ReadHashes(set)
 					if err != nil {
 						bad[g] = fmt.Sprintf("height %d indexes %v: %v", jobs[g].h, set, err)
